@@ -175,6 +175,8 @@ fn main() {
         "c03e2e" => c03::run("c03e2e", &args),
         #[cfg(feature = "c03")]
         "c04e2e" => c03::run("c04e2e", &args),
+        #[cfg(feature = "c03")]
+        "c04adv" => c03::run_adv(&args),
         #[cfg(feature = "c19")]
         "c19e2e" => c19::run("c19e2e", &args),
         #[cfg(feature = "c19")]
